@@ -14,13 +14,17 @@
 (*   parent references forming chains and cycles, CU / local TU / foreign TU  *)
 (*   index resolution at and beyond the list ends, both offset formats and    *)
 (*   byte orders.                                                             *)
+(* Mode "abbr": abbreviation code assignment as an independent dimension:      *)
+(*   every sequence of <= 3 codes (permutations of 1..n, sparse, 2-byte ULEB,   *)
+(*   >= 2^32, duplicates) over abbreviations that differ in tag, attribute list *)
+(*   and size; entries with every declared code and with the small codes 1..4.  *)
 (* Mode "misc": hand-written descriptions (augmentation padding, several      *)
 (*   indexes in one section, bad version, bad abbreviations, missing          *)
 (*   terminators, explicit entry offsets).                                    *)
 (* Mode "djb": the case-folding DJB hash on ASCII strings.                    *)
 EXTENDS Lookup, TLC, Json
 LOCAL SX == INSTANCE SequencesExt
-CONSTANTS Mode, MaxNames, MaxEntries, DjbLen, PoolNames, RawLen
+CONSTANTS Mode, MaxNames, MaxEntries, DjbLen, PoolNames, RawLen, AbbrBig
 VARIABLE c
 
 H(n) == FromNat(n, 4)
@@ -28,12 +32,13 @@ HBig == <<3, 0, 0, 128>>
 HU == {H(1), H(2), H(3), H(4), H(7), HBig}
 HProbes == SX!SetToSeq(HU \cup {H(0), H(5)})
 
-SimpleAbbrevs == << [code |-> 1, tag |-> 46, attrs |-> <<[idx |-> 3, form |-> F_ref4]>>] >>
+C(n) == FromNat(n, 8)                                  \* abbreviation codes are BV8
+SimpleAbbrevs == << [code |-> C(1), tag |-> 46, attrs |-> <<[idx |-> 3, form |-> F_ref4]>>] >>
 BaseNx == [fmt |-> 32, ver |-> 5, aug |-> <<>>, cus |-> <<11>>, ltus |-> <<>>, ftus |-> <<>>,
            bcount |-> 0, buckets |-> <<>>, hashes |-> <<>>, names |-> <<>>, abbrevs |-> SimpleAbbrevs,
            term |-> TRUE, abbrev_pad |-> <<>>, eoffs |-> <<>>]
 P(n) == [v |-> FromNat(n, 8), to |-> <<0, 0>>]
-SimpleName(i) == [stroff |-> 10 * i, series |-> << [code |-> 1, vals |-> <<P(32 + i)>>] >>]
+SimpleName(i) == [stroff |-> 10 * i, series |-> << [code |-> C(1), vals |-> <<P(32 + i)>>] >>]
 
 HashNx(B, hs, buckets, fmt) ==
     [BaseNx EXCEPT !.fmt = fmt, !.bcount = B, !.buckets = buckets, !.hashes = hs,
@@ -79,34 +84,36 @@ RawInv == (c.m = "raw" /\ Len(c.bk) = c.B) =>
     PrintT(<<"CASE", ToJson(Case(<<nx>>, TRUE, "raw", [wf |-> FALSE, scan |-> RawScan(nx)]))>>)
 
 (*-------------------------------- pool ----------------------------------*)
+(* declared out of order (3, 130, 1, 5, 2, 6, 4, 1): an entry must be decoded with the abbreviation *)
+(* that carries its code, not with the one at position code-1                                     *)
 PoolAbbrevs == <<
-  [code |-> 1, tag |-> 46, attrs |-> <<[idx |-> 3, form |-> F_ref4], [idx |-> 4, form |-> F_ref4]>>],
-  [code |-> 2, tag |-> 19, attrs |-> <<[idx |-> 1, form |-> F_data1], [idx |-> 3, form |-> F_ref_udata], [idx |-> 4, form |-> F_flag_present]>>],
-  [code |-> 3, tag |-> 22, attrs |-> <<[idx |-> 2, form |-> F_udata], [idx |-> 3, form |-> F_ref2], [idx |-> 5, form |-> F_data8]>>],
-  [code |-> 4, tag |-> 36, attrs |-> <<[idx |-> 1, form |-> F_data8], [idx |-> 2, form |-> F_data2], [idx |-> 3, form |-> F_ref1], [idx |-> 4, form |-> F_flag]>>],
-  [code |-> 5, tag |-> 57, attrs |-> <<[idx |-> 3, form |-> F_data4], [idx |-> 4, form |-> F_data1], [idx |-> 1, form |-> F_flag_present], [idx |-> 8192, form |-> F_ref8]>>],
-  [code |-> 6, tag |-> 52, attrs |-> <<[idx |-> 3, form |-> 8]>>],
-  [code |-> 130, tag |-> 16649, attrs |-> <<[idx |-> 3, form |-> F_ref4], [idx |-> 4, form |-> F_ref1]>>],
-  [code |-> 1, tag |-> 99, attrs |-> <<>>] >>
+  [code |-> C(3), tag |-> 22, attrs |-> <<[idx |-> 2, form |-> F_udata], [idx |-> 3, form |-> F_ref2], [idx |-> 5, form |-> F_data8]>>],
+  [code |-> C(130), tag |-> 16649, attrs |-> <<[idx |-> 3, form |-> F_ref4], [idx |-> 4, form |-> F_ref1]>>],
+  [code |-> C(1), tag |-> 46, attrs |-> <<[idx |-> 3, form |-> F_ref4], [idx |-> 4, form |-> F_ref4]>>],
+  [code |-> C(5), tag |-> 57, attrs |-> <<[idx |-> 3, form |-> F_data4], [idx |-> 4, form |-> F_data1], [idx |-> 1, form |-> F_flag_present], [idx |-> 8192, form |-> F_ref8]>>],
+  [code |-> C(2), tag |-> 19, attrs |-> <<[idx |-> 1, form |-> F_data1], [idx |-> 3, form |-> F_ref_udata], [idx |-> 4, form |-> F_flag_present]>>],
+  [code |-> C(6), tag |-> 52, attrs |-> <<[idx |-> 3, form |-> 8]>>],
+  [code |-> C(4), tag |-> 36, attrs |-> <<[idx |-> 1, form |-> F_data8], [idx |-> 2, form |-> F_data2], [idx |-> 3, form |-> F_ref1], [idx |-> 4, form |-> F_flag]>>],
+  [code |-> C(1), tag |-> 99, attrs |-> <<>>] >>
 N8(n) == FromNat(n, 8)
 (* menu of entries; parent targets are symbolic: "prev" / "first" / "self" resolved by position *)
 M(n) == [v |-> FromNat(n, 8), sym |-> ""]
 MB(b) == [v |-> b, sym |-> ""]
 MS(s) == [v |-> Zero(8), sym |-> s]
 Menu == {
-  [code |-> 1, vals |-> <<M(48), MS("prev")>>],
-  [code |-> 1, vals |-> <<M(49), MS("first")>>],
-  [code |-> 2, vals |-> <<M(0), M(200), M(0)>>],
-  [code |-> 2, vals |-> <<M(2), M(3), M(0)>>],
-  [code |-> 3, vals |-> <<M(0), M(513), MB(<<1, 2, 3, 4, 5, 6, 7, 200>>)>>],
-  [code |-> 3, vals |-> <<M(1), M(7), M(9)>>],
-  [code |-> 3, vals |-> <<M(3), M(7), M(9)>>],
-  [code |-> 4, vals |-> <<MB(<<1, 0, 0, 0, 1, 0, 0, 0>>), M(2), M(255), M(0)>>],
-  [code |-> 4, vals |-> <<M(1), M(0), M(4), M(1)>>],
-  [code |-> 5, vals |-> <<M(77), M(1), M(0), M(5)>>],
-  [code |-> 6, vals |-> <<M(1)>>],
-  [code |-> 130, vals |-> <<M(66), MS("self")>>],
-  [code |-> 9, vals |-> <<>>] }
+  [code |-> C(1), vals |-> <<M(48), MS("prev")>>],
+  [code |-> C(1), vals |-> <<M(49), MS("first")>>],
+  [code |-> C(2), vals |-> <<M(0), M(200), M(0)>>],
+  [code |-> C(2), vals |-> <<M(2), M(3), M(0)>>],
+  [code |-> C(3), vals |-> <<M(0), M(513), MB(<<1, 2, 3, 4, 5, 6, 7, 200>>)>>],
+  [code |-> C(3), vals |-> <<M(1), M(7), M(9)>>],
+  [code |-> C(3), vals |-> <<M(3), M(7), M(9)>>],
+  [code |-> C(4), vals |-> <<MB(<<1, 0, 0, 0, 1, 0, 0, 0>>), M(2), M(255), M(0)>>],
+  [code |-> C(4), vals |-> <<M(1), M(0), M(4), M(1)>>],
+  [code |-> C(5), vals |-> <<M(77), M(1), M(0), M(5)>>],
+  [code |-> C(6), vals |-> <<M(1)>>],
+  [code |-> C(130), vals |-> <<M(66), MS("self")>>],
+  [code |-> C(9), vals |-> <<>>] }
 PoolNx(names, fmt) ==
     [BaseNx EXCEPT !.fmt = fmt, !.cus = <<11, 523>>, !.ltus = <<77>>, !.ftus = <<<<9, 8, 7, 6, 5, 4, 3, 200>>, <<1, 1, 1, 1, 1, 1, 1, 1>> >>,
                    !.names = names, !.abbrevs = PoolAbbrevs]
@@ -132,17 +139,54 @@ PoolNext ==
        /\ c' = [c EXCEPT !.names = Append(c.names, [stroff |-> 5 * Len(c.names) + 1, series |-> <<>>])]
     \/ /\ c.names # <<>> /\ NEntries(c.names) < MaxEntries
        /\ \E e \in Menu : c' = [c EXCEPT !.names[Len(c.names)].series = Append(@, e)]
-CodeSum(names) == SumSeq([i \in DOMAIN names |-> SumSeq([j \in DOMAIN names[i].series |-> names[i].series[j].code])])
+CodeSum(names) == SumSeq([i \in DOMAIN names |-> SumSeq([j \in DOMAIN names[i].series |-> names[i].series[j].code[1]])])
 PoolInv == (c.m = "pool" /\ c.names # <<>>) =>
     LET v == (CodeSum(c.names) + Len(c.names)) % 4
         nx == PoolNx(ResolveSym(c.names), IF v < 2 THEN 32 ELSE 64) IN
     PrintT(<<"CASE", ToJson(Case(<<nx>>, v % 2 = 0, "pool", [wf |-> TRUE]))>>)
 
+(*-------------------------------- abbr ----------------------------------*)
+(* Abbreviation code assignment as an independent dimension: the k-th declared *)
+(* abbreviation has shape k (shapes differ in tag, attribute list and size) and *)
+(* ANY code of the universe: permutations of 1..n, sparse small codes, 2-byte   *)
+(* ULEB codes, codes >= 2^32, duplicates.  Every declared code and the small    *)
+(* codes 1..4 (declared or not) are used by an entry; each is followed by an    *)
+(* entry with the first declared code, so a mis-sized decode is visible too.    *)
+Shapes == << [tag |-> 46, attrs |-> <<[idx |-> 3, form |-> F_ref4]>>],
+             [tag |-> 19, attrs |-> <<[idx |-> 1, form |-> F_data1], [idx |-> 3, form |-> F_ref2]>>],
+             [tag |-> 22, attrs |-> <<[idx |-> 3, form |-> F_ref_udata], [idx |-> 5, form |-> F_data8], [idx |-> 4, form |-> F_flag_present]>>] >>
+CodeU == IF AbbrBig THEN {C(1), C(2), C(3), C(4), C(128), C(300), <<1, 0, 0, 0, 1, 0, 0, 0>>, <<255, 255, 255, 255, 255, 255, 255, 255>>}
+         ELSE {C(1), C(2), C(3), C(128), <<1, 0, 0, 0, 1, 0, 0, 0>>}
+AbbrTable(codes) == [k \in DOMAIN codes |-> [code |-> codes[k], tag |-> Shapes[k].tag, attrs |-> Shapes[k].attrs]]
+AbbrInit == c = [m |-> "abbr", codes |-> <<>>]
+AbbrNext == Len(c.codes) < 3 /\ \E x \in CodeU : c' = [c EXCEPT !.codes = Append(c.codes, x)]
+AbbrNx(codes) ==
+    LET tbl == AbbrTable(codes)
+        nx0 == [BaseNx EXCEPT !.cus = <<11, 523>>, !.abbrevs = tbl]
+        probes == SX!SetToSeq(Range(codes) \cup {C(1), C(2), C(3), C(4)})
+        EntryFor(code) == LET a == AbbrevOf(nx0, code) IN
+            [code |-> code, vals |-> IF IsZero(a.code) THEN <<>> ELSE [k \in DOMAIN a.attrs |-> P(16 * k + 1)]] IN
+    [nx0 EXCEPT !.names = [i \in DOMAIN probes |->
+        [stroff |-> 7 * i, series |-> <<EntryFor(probes[i]), EntryFor(codes[1])>>]]]
+(* design-level: an entry is decoded with the tag of the first abbreviation declared with its code *)
+AbbrTheorem(codes) ==
+    LET nx == AbbrNx(codes) IN
+    \A i \in DOMAIN nx.names :
+        LET e == nx.names[i].series[1]
+            S == {k \in DOMAIN codes : codes[k] = e.code}
+            o == EntryObs(nx, e, EntryOff(nx, i, 1)) IN
+        IF S = {} THEN "err" \in DOMAIN o
+        ELSE o.tag = Shapes[CHOOSE k \in S : \A j \in S : k <= j].tag
+AbbrInv == (c.m = "abbr" /\ c.codes # <<>>) =>
+    /\ AbbrTheorem(c.codes)
+    /\ LET v == (Len(c.codes) + c.codes[1][1]) % 4 IN
+       PrintT(<<"CASE", ToJson(Case(<<[AbbrNx(c.codes) EXCEPT !.fmt = IF v < 2 THEN 32 ELSE 64]>>, v % 2 = 0, "abbr", [wf |-> TRUE]))>>)
+
 (*-------------------------------- misc ----------------------------------*)
-TwoNames == <<SimpleName(1), [stroff |-> 3, series |-> << [code |-> 1, vals |-> <<P(5)>>], [code |-> 1, vals |-> <<P(6)>>] >>] >>
+TwoNames == <<SimpleName(1), [stroff |-> 3, series |-> << [code |-> C(1), vals |-> <<P(5)>>], [code |-> C(1), vals |-> <<P(6)>>] >>] >>
 Hashed == [BaseNx EXCEPT !.bcount = 2, !.hashes = <<H(2), H(1)>>, !.buckets = <<1, 2>>, !.names = TwoNames]
 AugOf(n) == [i \in 1..n |-> 64 + i]
-BadAbbrev(tag, idx, form) == << [code |-> 1, tag |-> tag, attrs |-> <<[idx |-> idx, form |-> form]>>] >>
+BadAbbrev(tag, idx, form) == << [code |-> C(1), tag |-> tag, attrs |-> <<[idx |-> idx, form |-> form]>>] >>
 MiscSet ==
     {<< [Hashed EXCEPT !.aug = AugOf(n), !.fmt = f] >> : n \in 0..5, f \in {32, 64}}
     \cup {<< [Hashed EXCEPT !.aug = AugOf(3)], [Hashed EXCEPT !.fmt = 64, !.cus = <<1, 2, 3>>], Hashed >>}    \* three indexes in a section
@@ -169,16 +213,18 @@ DjbInv == c.m = "djb" =>
     /\ (Len(c.s) <= 3 => ToNat(Djb(c.s)) = DjbNat(c.s, 1, 5381))          \* no wrap for <= 3 characters
     /\ PrintT(<<"CASE", ToJson([sys |-> "djb", s |-> c.s, exp |-> Djb(c.s)])>>)
 
-Modes == IF Mode = "all" THEN {"hash", "raw", "pool", "misc", "djb"} ELSE {Mode}
+Modes == IF Mode = "all" THEN {"hash", "raw", "pool", "abbr", "misc", "djb"} ELSE {Mode}
 Init == \/ "hash" \in Modes /\ HashInit
         \/ "raw"  \in Modes /\ RawInit
         \/ "pool" \in Modes /\ PoolInit
+        \/ "abbr" \in Modes /\ AbbrInit
         \/ "misc" \in Modes /\ MiscInit
         \/ "djb"  \in Modes /\ DjbInit
 Next == \/ c.m = "hash" /\ HashNext
         \/ c.m = "raw"  /\ RawNext
         \/ c.m = "pool" /\ PoolNext
+        \/ c.m = "abbr" /\ AbbrNext
         \/ c.m = "misc" /\ MiscNext
         \/ c.m = "djb"  /\ DjbNext
-Inv == HashInv /\ RawInv /\ PoolInv /\ MiscInv /\ DjbInv
+Inv == HashInv /\ RawInv /\ PoolInv /\ AbbrInv /\ MiscInv /\ DjbInv
 =============================================================================
